@@ -12,6 +12,7 @@ INVARIANT WriteInBounds
 INVARIANT RejectWarns
 INVARIANT AcceptExact
 INVARIANT AcceptSound
+INVARIANT ProductRuleAgrees
 INVARIANT TruncatedRejected
 INVARIANT PristineAccepted
 CHECK_DEADLOCK FALSE
